@@ -661,7 +661,50 @@ func jgenValue(t *rapid.T, o jgenOpts, depth int, label string) jv {
 
 // jgenWrap nests a value inside arrays / objects (arrays of arrays of objects and the like are
 // rare under uniform generation but matter to code with per-level fast paths).
+// jgenWide puts v among many siblings: an object with 100..300 members (around and beyond 128 and
+// 256, in unsorted order) or an array of that length. Fixed-size scratch buffers and small-object
+// fast paths live behind such sizes.
+func jgenWide(t *rapid.T, v jv, label string) jv {
+	n := rapid.SampledFrom([]int{100, 127, 128, 129, 130, 150, 255, 256, 257, 300}).Draw(t, label+"_wideN")
+	at := rapid.IntRange(0, n-1).Draw(t, label+"_wideAt")
+	if rapid.Bool().Draw(t, label+"_wideArr") {
+		out := jv{K: 'a'}
+		for i := 0; i < n; i++ {
+			if i == at {
+				out.A = append(out.A, v)
+			} else {
+				out.A = append(out.A, jnum(int64(i)))
+			}
+		}
+		return out
+	}
+	out := jv{K: 'o'}
+	for i := 0; i < n; i++ {
+		// keys in an order that is not sorted: k(7i mod n)
+		k := fmt.Sprintf("k%03d", (i*7+3)%n)
+		if i == at {
+			out.O = append(out.O, jkv{"k" + fmt.Sprintf("%03d", (i*7+3)%n), v})
+		} else {
+			out.O = append(out.O, jkv{k, jnum(int64(i))})
+		}
+	}
+	// 7 is coprime to every n in the list except multiples of 7; drop accidental duplicates
+	seen := map[string]bool{}
+	uniq := out.O[:0]
+	for _, m := range out.O {
+		if !seen[m.Key] {
+			seen[m.Key] = true
+			uniq = append(uniq, m)
+		}
+	}
+	out.O = uniq
+	return out
+}
+
 func jgenWrap(t *rapid.T, v jv, label string) jv {
+	if rapid.IntRange(0, 24).Draw(t, label+"_wide") == 0 {
+		v = jgenWide(t, v, label)
+	}
 	n := rapid.IntRange(0, 3).Draw(t, label+"_wrapN")
 	for i := 0; i < n; i++ {
 		switch rapid.IntRange(0, 4).Draw(t, label+"_wrapK") {
